@@ -1030,7 +1030,7 @@ func (p *pipeline) cuts(im image, seeds []int) []map[string]int64 {
 		fl := im.meta.Files[n]
 		tailLen := fl.Written - fl.Synced
 		var lens []int64
-		if tailLen <= 256 && p.thorough {
+		if tailLen <= 48 && p.thorough {
 			for l := fl.Synced; l < fl.Written; l++ {
 				lens = append(lens, l)
 			}
